@@ -162,14 +162,20 @@ pub const EDIT_SEEDS: [&str; 26] = [
 
 /// every single-character edit (insert before / replace / delete, and appended at the end) of every seed text with every
 /// look-alike and a few ASCII characters, plus every prefix of every seed padded with white space on either side
-pub fn single_edit_lattice(rep: &mut Rep, shard: usize, n: usize) {
+pub fn single_edit_lattice(rep: &mut Rep, shard: usize, n: usize, stride: usize, phase: usize) {
     let mut i = 0usize;
+    let mut kept = 0usize;
     let ascii = ['-', '+', ' ', '0', ':', '.', 'T', '%', '\u{0}'];
     for seed in EDIT_SEEDS {
         let chars: Vec<char> = seed.chars().collect();
         for pos in 0..=chars.len() {
             i += 1;
             if i % n != shard {
+                continue;
+            }
+            // (the slow auxiliary flavours - Miri - take one position in `stride`)
+            kept += 1;
+            if kept % stride != phase % stride {
                 continue;
             }
             for c in LOOKALIKES.iter().chain(ascii.iter()) {
@@ -434,11 +440,15 @@ pub fn run(cfg: &Cfg, rep: &mut Rep) {
     let sh = rep.shard as usize;
     let n = NSHARDS as usize;
     let mut r = Rng::new(cfg.seed, 0x1300 + sh as u64);
+    // The lattices below do not depend on the random budget. A flavour that divides the budget by thousands (Miri: four
+    // orders of magnitude slower) takes one lattice item in `stride`, a different one per seed.
+    let stride = ((cfg.budget_div / 40).max(1)) as usize;
+    let phase = cfg.seed as usize;
     // out-of-range lattice
     let mut i = 0usize;
     for k in 0..400i64 {
         i += 1;
-        if i % n != sh || cfg.fuzz {
+        if i % n != sh || cfg.fuzz || (i / n) % stride != phase % stride {
             continue;
         }
         let y = 1600 + k * 2 + (k % 3);
@@ -499,12 +509,12 @@ pub fn run(cfg: &Cfg, rep: &mut Rep) {
         }
     }
     if !cfg.fuzz {
-        single_edit_lattice(rep, sh, n);
+        single_edit_lattice(rep, sh, n, stride, phase);
     }
     // second 60 in text form: accepted only at 23:59 of a day on which a leap second was inserted (C08's partition)
     let tab = crate::model::leap::table();
     for y in 1960..=2030i64 {
-        if (y as usize) % n != sh || cfg.fuzz {
+        if (y as usize) % n != sh || cfg.fuzz || (y as usize / n) % stride != phase % stride {
             continue;
         }
         for (m, d) in [(6u32, 30u32), (12, 31), (3, 31), (9, 30), (6, 29), (1, 1)] {
@@ -559,7 +569,7 @@ pub fn run(cfg: &Cfg, rep: &mut Rep) {
             }
             for c in 0x21u8..0x7f {
                 li += 1;
-                if li % n != sh {
+                if li % n != sh || (li / n) % stride != phase % stride {
                     continue;
                 }
                 for tail in ["", "?", " %Y", "-%d %H"] {
